@@ -1899,8 +1899,14 @@ impl<Front: SocketHandler + std::fmt::Debug, L: ListenerHandler + L7ListenerHand
                 if !matches!(stream.state, StreamState::Linked(_) | StreamState::Unlinked) {
                     continue;
                 }
+                // `is_completed()` only says that everything received so far has
+                // been forwarded; a request whose body is still arriving is just as
+                // "completed" between two DATA frames. Without `is_terminated()` an
+                // upload in flight at soft stop was declared finished here, and its
+                // next DATA frame was answered with GOAWAY(STREAM_CLOSED).
                 if stream.front.consumed
                     && stream.front.storage.is_empty()
+                    && stream.front.is_terminated()
                     && stream.front.is_completed()
                 {
                     stream.front_received_end_of_stream = true;
